@@ -182,7 +182,7 @@ def check(prog, res, tier):
 
     def chk_i(p, mode):
         if p.outcome != 'return':
-            return [definite(f'ipm_info raises {p.value!r}')]
+            return [definite(f'ipm_info raises {p.value!r}')] if p.outcome == 'raise' else []
         out = p.value
         it = p.interp
         st = p.store
@@ -276,14 +276,24 @@ def check(prog, res, tier):
                 item, cont = data['item'], data['container']
                 if not (isinstance(cont, PyLit) and cont.path.endswith("['bit_config']")):
                     fails.append(definite(f'element numbers are looked up in {cont!r}, not the packaged bit configuration'))
-                its = [(f0, l0, s0, s1, h) for f0, l0, s0, s1, h in iterations(p, func=mfi.short)]
                 if isinstance(item, SeqV) and len(item.segs) == 1 and isinstance(item.segs[0], Num) and item.segs[0].val is not None:
                     idxs = [e.data.get('elem') for e in p.events if e.kind == 'loop-iter' and e.func == mfi.short]
                     idx = idxs[-1] if idxs else None
-                    if isinstance(idx, TupleV) and isinstance(idx.items[0], IntV):
-                        fails += need_eq0(st, item.segs[0].val - idx.items[0].lin - 1,
-                                          f'list index i is checked as element {st.canon(item.segs[0].val)} (must be i+1)')
-                        fails += need_ge0(st, idx.items[0].lin - 1, 'bit 1 (index 0) is looked up although it has no configuration')
+                    fi_ev = [e for e in p.events if e.kind == 'for-iter' and e.func == mfi.short]
+                    itv = fi_ev[-1].data['iterable'] if fi_ev else None
+                    if isinstance(idx, TupleV) and isinstance(idx.items[0], IntV) and isinstance(itv, IterV):
+                        # position of the tested bit in the unpacked bit list = counter - start + slice offset
+                        pos = idx.items[0].lin - getattr(itv, 'enum_start', Lin.const(0))
+                        src = itv.src
+                        par = getattr(src, 'parent', None)
+                        if par is not None and par[1] is not None:
+                            pos = pos + Lin.of(par[1])
+                        fails += need_eq0(st, item.segs[0].val - pos - 1,
+                                          f'bit-list position {st.canon(pos)} is checked as element {st.canon(item.segs[0].val)} '
+                                          f'(position i holds element i+1)')
+                        fails += need_ge0(st, pos - 1, 'bit 1 (position 0) is looked up although it has no configuration')
+                    else:
+                        fails.append(soft('bit loop has an unexpected shape'))
                 else:
                     fails.append(soft(f'lookup key has an unexpected shape: {item!r}'))
         if p.outcome == 'return':
@@ -307,7 +317,7 @@ def check(prog, res, tier):
 
     def chk_e(p, mode):
         if p.outcome != 'return':
-            return [definite(f'encoding_check raises {p.value!r}')]
+            return [definite(f'encoding_check raises {p.value!r}')] if p.outcome == 'raise' else []
         v = p.interp.resolve(p.value)
         name = v.lit_value() if isinstance(v, SeqV) and v.is_lit() else None
         tests = []
